@@ -280,9 +280,9 @@ Lemma load_flags re_compiles ast c :
   cf_do_regex c = existsb ru_is_regex (cf_rules c).
 Proof.
   unfold load. destruct ast as [|d rules]; [discriminate|].
-  destruct (load_defaults d) as [dd|e]; simpl; [|discriminate].
-  match goal with |- context [if ?b then LOk tt else _] => destruct b end; simpl; [|discriminate].
-  destruct (load_rules re_compiles (fst dd) (snd dd) rules) as [rs|e]; simpl; [|discriminate].
+  repeat match goal with
+  | |- lbind ?r _ = _ -> _ => destruct r eqn:?; cbn [lbind]; [|discriminate]
+  end.
   intros H. injection H as <-. simpl. split; reflexivity.
 Qed.
 
